@@ -3,6 +3,7 @@ package c07
 
 import (
 	"fmt"
+	"os"
 	"regexp"
 	"strings"
 	"time"
@@ -30,9 +31,9 @@ type Spec struct {
 	// DustStake: governance has lowered the delegate threshold below one power unit and every oracle is bonded with this
 	// many FX (< 100): all oracles are online with power zero
 	DustStake int64
-	w       *world.World
-	oracles map[string][]scen.Oracle
-	token   map[string]string // FX token contract on each chain
+	w         *world.World
+	oracles   map[string][]scen.Oracle
+	token     map[string]string // FX token contract on each chain
 }
 
 func (s *Spec) Name() string {
@@ -97,6 +98,13 @@ func (s *Spec) blockOp(name string, dt time.Duration) explore.Op {
 	return explore.Op{Name: name, Run: func(st *explore.State) {
 		next, res := s.w.NextBlock(st.Ctx, dt)
 		st.Ctx = next
+		if os.Getenv("FXMC_DEBUG") != "" {
+			for id := uint64(1); id < 4; id++ {
+				if pr, err := s.w.App.GovKeeper.Proposals.Get(next, id); err == nil {
+					fmt.Fprintf(os.Stderr, "DEBUG after %s: proposal %d status %s reason %q end %v\n", name, id, pr.Status, pr.FailedReason, pr.VotingEndTime)
+				}
+			}
+		}
 		switch {
 		case res.Panic != nil:
 			st.Outcome = "panic"
@@ -278,13 +286,19 @@ func (s *Spec) govOps(st *explore.State) []explore.Op {
 		if openID > 0 {
 			kinds = append(kinds, "gov-account-deposits-into-open-proposal")
 		}
+		if n <= 1 {
+			// ... or of the proposal that will be submitted next (it is open by the time this one is executed)
+			kinds = append(kinds, "gov-account-deposits-into-next-proposal")
+		}
 		for _, kind := range kinds {
 			kind := kind
 			ops = append(ops, explore.Op{Name: "GovPass(" + kind + ")", Run: func(c *explore.State) {
 				var msgs []sdk.Msg
 				switch kind {
 				case "gov-account-deposits-into-open-proposal":
-					msgs = []sdk.Msg{&govv1.MsgDeposit{ProposalId: openID, Depositor: world.GovAuthority(), Amount: sdk.NewCoins(world.FXCoin(1))}}
+					msgs = []sdk.Msg{&govv1.MsgDeposit{ProposalId: openID, Depositor: world.GovAuthority(), Amount: sdk.NewCoins(world.FXCoin(100))}}
+				case "gov-account-deposits-into-next-proposal":
+					msgs = []sdk.Msg{&govv1.MsgDeposit{ProposalId: n + 1, Depositor: world.GovAuthority(), Amount: sdk.NewCoins(world.FXCoin(100))}}
 				case "params":
 					p := scen.Keeper(s.w, ch).GetParams(c.Ctx)
 					p.AverageBlockTime = 6000
